@@ -310,6 +310,50 @@ func runHistoryOracles(prop string, c *sx, hist string, st *oracleStats, add fun
 			sawErr = true
 		}
 	}
+	if prop == "C08" {
+		// update events: the recorded updated/removed fields applied to the previous
+		// version of the document give the new version (up to field order)
+		state := map[string][]bson.D{}
+		for k := range oplogAll {
+			e := &oplogAll[k]
+			db, _ := bsonkit.Get(e, "ns.db").(string)
+			coll, _ := bsonkit.Get(e, "ns.coll").(string)
+			key := db + "." + coll
+			op, _ := bsonkit.Get(e, "operationType").(string)
+			if op == "update" {
+				id := bsonkit.Get(e, "documentKey._id")
+				full, _ := bsonkit.Get(e, "fullDocument").(bson.D)
+				for _, d := range state[key] {
+					dd := d
+					if bsonkit.Compare(bsonkit.Get(&dd, "_id"), id) != 0 {
+						continue
+					}
+					prev := bsonkit.Clone(&dd)
+					ok := true
+					if upd, isD := bsonkit.Get(e, "updateDescription.updatedFields").(bson.D); isD {
+						for _, f := range upd {
+							if _, err := bsonkit.Put(prev, f.Key, f.Value, false); err != nil {
+								ok = false
+							}
+						}
+					}
+					if rem, isA := bsonkit.Get(e, "updateDescription.removedFields").(bson.A); isA {
+						for _, f := range rem {
+							if p, isS := f.(string); isS {
+								bsonkit.Unset(prev, p)
+							}
+						}
+					}
+					st.Dist["update-descriptions-checked"]++
+					if !ok || sortedForm(*prev) != sortedForm(full) {
+						add("C08:update-description-unfaithful", "applying updatedFields/removedFields of an update event to the previous version does not give the recorded new version", hist, k, []string{enc(dd), enc(*e)})
+					}
+					break
+				}
+			}
+			state = replayEvents(state, oplogAll[k:k+1])
+		}
+	}
 	if prop == "C08" && len(points) > 1 {
 		// replay between random pairs of points (all pairs for short histories)
 		for x := 0; x < len(points); x++ {
@@ -396,6 +440,27 @@ func replayEvents(start map[string][]bson.D, evs []bson.D) map[string][]bson.D {
 		}
 	}
 	return cur
+}
+
+// sortedForm renders a value with the fields of every document sorted by key
+// ("up to field order").
+func sortedForm(v interface{}) string {
+	switch x := v.(type) {
+	case bson.D:
+		parts := make([]string, 0, len(x))
+		for _, e := range x {
+			parts = append(parts, hx(e.Key)+":"+sortedForm(e.Value))
+		}
+		sort.Strings(parts)
+		return "{" + strings.Join(parts, ",") + "}"
+	case bson.A:
+		parts := make([]string, 0, len(x))
+		for _, e := range x {
+			parts = append(parts, sortedForm(e))
+		}
+		return "[" + strings.Join(parts, ",") + "]"
+	}
+	return enc(v)
 }
 
 func diffContents(a, b map[string][]bson.D) string {
